@@ -18,7 +18,10 @@ META = dict(
          "code from a fresh fixture and from seeded non-fresh states, recording result, full store digest before/after and the owner's position/balance "
          "view; TLC evaluates C12_OwnerOnly, C12_VictimUntouched, C12_RejectedChangesNothing, C12_Privileged, C12_PrivilegedRole, "
          "C12_PrivilegedOtherNetwork, C12_KillSwitch on every recorded cell. Exhaustive over the matrix, sampled over histories.",
-    note="Signature verification is assumed (signer = msg.GetSigners()[0]); rejected messages are delivered with baseapp's cache-wrap atomicity; "
+    note="Round 4: the privileged cells also vary whom the payload's own address field names (caller / designated contract / third account); the kill switch "
+         "runs under three states of the esm admin parameter (configured, rotated, empty) set through the params module's parameter-change proposal handler; "
+         "opening messages by third parties are checked to leave every holder's positions untouched, also after an older position was removed (hole in the id "
+         "sequence), and the whole matrix runs once more on such a 'holey' state. Signature verification is assumed (signer = msg.GetSigners()[0]); rejected messages are delivered with baseapp's cache-wrap atomicity; "
          "the designated contract addresses are network data; histories are seeded random prefixes of successful operations, not all reachable states.",
     design_ref="4 C12",
 )
@@ -29,13 +32,14 @@ def run(c):
     c.judge(dict(fails=[tuple(x) for x in res["fails"]]), logf)
     st = res["stats"]
     if not c.violations:   # a violation on real-code states stands on its own; vacuity only matters for a clean result
-        mx.need(st, ["ownForeign", "ownSignerKeyed", "ownOwnerOk", "privGuarded", "privAccepted", "privElsewhere", "killRejected", "killAccepted",
-                     "ownForeignWhole", "ownForeignOver", "ownOtherScope", "ownScopeWitness"])
-        mx.need_eq(st, [("ownRowsWitnessed", "ownRows"), ("variantsWitnessed", "variants")])
-    c.samples = mx.samples(logf, ("Own", "Priv", "Kill"))
+        mx.need(st, ["ownForeign", "ownSignerKeyed", "ownOwnerOk", "privGuarded", "privAccepted", "privElsewhere", "killForeign", "killAccepted",
+                     "ownForeignWhole", "ownForeignOver", "ownOtherScope", "ownScopeWitness",
+                     "privPayloadNamesDesignated", "killRotatedAccepted", "killEmptyList", "openOk", "openAfterHole", "holeyStates"])
+        mx.need_eq(st, [("ownRowsWitnessed", "ownRows"), ("variantsWitnessed", "variants"), ("openMsgsWitnessed", "openMsgs")])
+    c.samples = mx.samples(logf, ("Own", "Open", "Priv", "Kill"))
     return c.finish("model_checking", dict(
         states=res["mc"]["distinct"], transitions=res["mc"]["generated"], traces_validated_against_impl=st["nodes"],
-        cells_executed=st["own"] + st["privGuarded"] + st["privElsewhere"] + st["killRejected"] + st["killAccepted"],
+        cells_executed=st["own"] + st["privGuarded"] + st["privElsewhere"] + st["killForeign"] + st["killAccepted"],
         prepared_states=st["states"], antecedents=st, exhaustive=True, log_cached=cached,
         rule="every cell of the owner matrix (position message x signer) and of the privileged matrix (variant x chain id x sender; kill switch x sender) "
              "is one execution on the real code per prepared state (fresh fixture + seeded random prefixes); a cell counts as non-vacuous when the same "
